@@ -413,9 +413,13 @@ def small_track(params, X64):
 def run_case(cls, params, rec):
 	fn = params["fn"]
 	X, X64 = make_input(params)
+	xbase = None
+	if isinstance(X, torch.Tensor):
+		# same values as a view into a larger storage
+		params, X, xbase = gen.apply_layout(params, rec, X)
 	tr = Track(X64)
 	eps = dtype_eps(params["dtype"])
-	mon = gen.Immutable(X=X)
+	mon = gen.Immutable(X=X, Xbase=xbase)
 	f32 = params["dtype"] == "float32"
 
 	if fn in ("recursive_seqlets", "_recursive_seqlets"):
